@@ -62,11 +62,11 @@ Print Assumptions C06_generated_key_value_encrypted_iff_private.
 (* C_UnwrapKey regenerated whole (gen/Gen_Keys.v): the secret value it stores for a private object is an output of Token::encrypt
    (first clause); the other clauses are the history attributes of the new key (C08, C13) *)
 Theorem C06_unwrapped_key_value_encrypted_when_private : forall (e : C_UnwrapKey.env),
-  (forall v, In (CKA_VALUE, v) (snd (C_UnwrapKey.app e)) -> C_UnwrapKey.hv1_isPrivate e <> 0 -> exists x, v = C_UnwrapKey.token_encrypt_out_value e x) /\
+  (forall v, In (CKA_VALUE, v) (snd (C_UnwrapKey.app e)) -> C_UnwrapKey.extractObjectInformation_gives_isPrivate e <> 0 -> exists x, v = C_UnwrapKey.token_encrypt_out_value e x) /\
   (forall v, In (CKA_LOCAL, v) (snd (C_UnwrapKey.app e)) -> v = 0) /\
   (forall v, In (CKA_ALWAYS_SENSITIVE, v) (snd (C_UnwrapKey.app e)) -> v = 0) /\
   (forall v, In (CKA_NEVER_EXTRACTABLE, v) (snd (C_UnwrapKey.app e)) -> v = 0) /\
-  (fst (C_UnwrapKey.app e) = 0 -> (C_UnwrapKey.hv1_objClass e = CKO_SECRET_KEY -> exists v, In (CKA_VALUE, v) (snd (C_UnwrapKey.app e))) /\
+  (fst (C_UnwrapKey.app e) = 0 -> (C_UnwrapKey.extractObjectInformation_gives_objClass e = CKO_SECRET_KEY -> exists v, In (CKA_VALUE, v) (snd (C_UnwrapKey.app e))) /\
      (exists v, In (CKA_LOCAL, v) (snd (C_UnwrapKey.app e))) /\ (exists v, In (CKA_ALWAYS_SENSITIVE, v) (snd (C_UnwrapKey.app e))) /\
      (exists v, In (CKA_NEVER_EXTRACTABLE, v) (snd (C_UnwrapKey.app e)))).
 Proof. exact unwrapped_key_attributes. Qed.
